@@ -15,6 +15,14 @@ def h(s):
 # execution
 # ------------------------------------------------------------------------------------------------------------
 
+def literal_roundtrip_post(rec, c, r, d):
+    """supporting execution (SWC's printer is not modelled): every string literal of the tree the visitor produced must print
+    as text that reads back as the SAME value (a stale `raw` spelling copied from JSX source text shows here)"""
+    if rec["oracle"] == "ok" and r.get("panic") is None and r.get("str_roundtrip"):
+        rt = r["str_roundtrip"]
+        rec["oracle"] = "FAIL:printed-string-literal-differs:value in the output tree %r, value the printed text denotes %r" % (rt.get("ast"), rt.get("printed"))
+
+
 def execute(pid, unit_cases, run_cases, pairs=None):
     P = PROPS[pid]
     records = []
@@ -42,8 +50,13 @@ def execute(pid, unit_cases, run_cases, pairs=None):
                 idx.append(i)
             elif "res" in r:
                 records.append(P["unit_record"](c, r))
+            elif r.get("not_run"):
+                records.append(dict(id=c["id"], kind="unit", corr="n/a", oracle="skip:not-run-after-timeouts", case=c, sig=h(c["fn"] + c["arg"]), nontrivial=False, detail=r))
+            elif r.get("timeout"):
+                records.append(dict(id=c["id"], kind="unit", corr="unit-timeout", oracle="FAIL:does-not-terminate:" + str(r.get("stderr")),
+                                    case=c, sig=h(c["fn"] + c["arg"]), nontrivial=True, detail=r))
             else:
-                records.append(dict(id=c["id"], kind="unit", corr="unit-panic", oracle="FAIL:panic:" + str(r.get("panic")),
+                records.append(dict(id=c["id"], kind="unit", corr="unit-panic", oracle="FAIL:panic:" + str(r.get("panic") or r.get("stderr")),
                                     case=c, sig=h(c["fn"] + c["arg"]), nontrivial=True, detail=r))
         outs = runlib.run_driver(lines, mode=[pid])
         for i, o in zip(idx, outs):
@@ -65,9 +78,13 @@ def execute(pid, unit_cases, run_cases, pairs=None):
         dmap = dict(zip(idx, outs))
         for i, (c, r) in enumerate(zip(run_cases, recs)):
             sig = h(c["src"] + json.dumps(c.get("opts"), sort_keys=True))
+            if r.get("not_run"):
+                records.append(dict(id=c["id"], kind="run", corr="n/a", oracle="skip:not-run-after-timeouts", case=c, sig=sig, nontrivial=False, detail=r))
+                continue
             if r.get("abort"):
-                records.append(dict(id=c["id"], kind="run", corr="impl-abort",
-                                    oracle=("FAIL:process-abort:exit %s %s" % (r.get("returncode"), (r.get("stderr") or "")[-120:].replace("\n", " "))) if pid == "C08" else "skip:abort",
+                what = "does-not-terminate" if r.get("timeout") else "process-abort"
+                records.append(dict(id=c["id"], kind="run", corr="impl-timeout" if r.get("timeout") else "impl-abort",
+                                    oracle=("FAIL:%s:exit %s %s" % (what, r.get("returncode"), (r.get("stderr") or "")[-120:].replace("\n", " "))) if pid == "C08" else "skip:abort",
                                     case=c, sig=sig, nontrivial=True, detail=r))
                 continue
             if "parse_error" in r or "opts_error" in r or "bad_line" in r:
@@ -345,6 +362,7 @@ PROPS["C02"] = {
     "theorems": ["C02_text_inline", "C02_text_preserves_nonws", "C02_text_no_break_out", "C02_children_skip_empty_text",
                  "C02_children_skip_empty_expr", "C02_no_children_null", "C02_children_array"],
     "cases": c02_cases,
+    "post": literal_roundtrip_post,
     "unit_clause": {"transform_text": "text-cleaning"},
     "projection": "unit: transform_text(s) vs cleanText(s); pipeline: whole output modulo renaming of generated identifiers",
     "explanation": "cleanText (Lean) is the JSX text rule; theorems hold for all strings; the Rust transform_text is compared with it exhaustively on short strings and on random ones; the oracle checks that the multiset of cleaned non-empty JSX texts of the input equals the createTextVNode arguments of the real output",
@@ -414,6 +432,7 @@ PROPS["C01"] = {
                  "C01_valueless_true", "C01_string_value_cleaned", "C01_expr_value", "C01_spread_plain", "C01_spread_merge",
                  "C01_no_attrs", "C01_assemble_merge", "C01_tag_member_hyphen"],
     "cases": c01_cases,
+    "post": literal_roundtrip_post,
     "explanation": "oracle: for every JSX element of the input, the vnode type and the props normal form (Sem.normOps: Vue mergeProps / plain last-wins semantics, class/style/listener concatenation) DENOTED by the written attributes equal those EVALUATED from the real output's createVNode arguments (mergeProps calls, deduplicated literals, _transformOn layers); elements with v-model are judged by C05",
 }
 
@@ -457,7 +476,9 @@ PROPS["C03"] = {
 # ---- C04 ---------------------------------------------------------------------------------------------------
 DIR_NAMES = ["v-foo", "vFoo", "v-my-dir", "vMyDir", "v-foo:arg", "v-foo_a", "v-foo_a_b", "vFooBar_m", "v-x:y_m_n", "v-show", "vShow", "v-html", "vHtml", "v-text", "vText",
              "v-visible", "vValidate_lazy", "v-viewport:top_once", "v-v", "v-on-x", "vV", "v-slotted", "vTextual", "v-htmlx", "v-model-x"]
-DIR_VALUES = ["={x}", "={[x]}", "={[x, 'arg']}", "={[x, ['m1', 'm2']]}", "={[x, 'arg', ['m']]}", "={[x, y]}", "={[x, y, ['m']]}", '="lit"', "={f(1)}", "={obj.a}"]
+DIR_VALUES = ["={x}", "={[x]}", "={[x, 'arg']}", "={[x, ['m1', 'm2']]}", "={[x, 'arg', ['m']]}", "={[x, y]}", "={[x, y, ['m']]}", '="lit"', "={f(1)}", "={obj.a}",
+              # string-literal values whose source text is not a JavaScript string literal: backslash, entity, the other quote, a line break
+              '="a\\"', '="a&amp;b"', "='q\"q'", '="l1\nl2"', '="&quot;"', '="\\n"']
 
 
 def c04_cases(tier, seed):
@@ -486,6 +507,7 @@ PROPS["C04"] = {
     "theorems": ["C04_name_first_letter_only", "C04_plain_name_no_argument", "C04_namespaced_argument", "C04_show_is_vShow",
                  "C04_custom_resolved_by_name", "C04_expression_value", "C04_frame", "C04_html_sets_innerHTML", "C04_text_sets_textContent"],
     "cases": c04_cases,
+    "post": literal_roundtrip_post,
     "explanation": "oracle: the runtime directive bindings (definition, value, argument, modifiers) denoted by every v-name/vName attribute equal those evaluated from the second argument of withDirectives in the real output; absent values, empty arrays and holes are outside the quantifier (C07/C08)",
 }
 
@@ -954,7 +976,8 @@ ODD_ATTRS = ["a=<b/>", "a=<></>", "a=<b c={<d/>}>t</b>", "class=<i/>", "v-foo", 
              "v-models={[]}", "v-models={x}", "v-models={[[x], y, ...zs, [,]]}", "v-models", 'v-models="s"', "v-foo={[x, ['a-b', '1x', 'ok']]}", "v-foo_a-b={x}", "v-foo_1x_ok={x}",
              "v-model={[x, ['a b', 'c.d']]}", "v-model_a-b={x}", 'v-html="s"', "v-html=<b/>", "v-text=<></>", "v-html={[]}", "v-text={[...xs]}", 'v-model="s"',
              "v-model=<b/>", "v-slots=<b/>", 'v-slots="s"', "v-slots={f()}", "v-show=<b/>", "v-foo=<b/>", 'v-show="s"', "v-foo:arg", "v-foo:arg_m", "v-:x={y}", "v-={y}", "v={y}",
-             "v-model:a-b={x}", "v-model={[x, 'a-b']}", "v-model={[x, `t`]}", "v-model={[x, 1]}", "{...<b/>}", "key=<b/>", "ref=<></>", "on=<b/>"]
+             "v-model:a-b={x}", "v-model={[x, 'a-b']}", "v-model={[x, `t`]}", "v-model={[x, 1]}", "{...<b/>}", "key=<b/>", "ref=<></>", "on=<b/>",
+             'v-html="a\\"', 'v-text="a&lt;b"', 'v-foo="c:\\dir\\"', "v-show='q\"q'", 'v-foo="l1\nl2"', 'title="a\\"', 'v-foo:arg_m="&#39;"', 'v-html="\\u0041"']
 ODD_TAGS = ["a:b", "svg:rect", "this.Comp", "this.a.B", "a.b.c.D", "Foo.bar", "x-y", "div", "Comp", "Fragment", "KeepAlive", "_", "$x", "A1"]
 ODD_CHILDREN = ["", "{}", "{/* c */}", "{...xs}", "{<b/>}", "<></>", "{...<b/>}", "{function(){}}", "{{}}", "{[]}", "{[,]}", "&amp;&#x41;", "{' '}", "{`t`}", "{a}{}{b}"]
 ODD_COMMENTS = ["", "/* @jsx h */", "/* @jsx h extra */", "/** @jsxImportSource vue */", "/* @jsx */", "// @jsx a.b", "/* @jsx $h */", "/* @jsxFrag F */", "/* @jsx h */ /* @jsx k */"]
@@ -1033,6 +1056,7 @@ def c07_cases(tier, seed):
 
 
 def c07_post(rec, c, r, d):
+    literal_roundtrip_post(rec, c, r, d)
     # supporting execution (printer and parser are not modelled): the printed output must re-parse as a non-JSX module
     if rec["oracle"] == "ok" and not r.get("diags") and r.get("panic") is None and r.get("reparse_ok") is False:
         rec["oracle"] = "FAIL:printed-output-does-not-reparse:" + (r.get("printed") or r.get("print_panic") or "")[:200].replace("\n", " ")
